@@ -445,6 +445,31 @@ func (ex *Exec) eqValue(a, b Value) *Term {
 		return r
 	case Array:
 		y := b.(Array)
+		if len(x) >= 16 && len(x) == len(y) {
+			// byte arrays holding outputs of the ideal primitives (keys,
+			// hashes): the structural equality of the ideal model decides,
+			// as for slices (an ideal output never equals a public constant)
+			xs, ys := make([]*Term, len(x)), make([]*Term, len(y))
+			bytesOnly, ideal := true, false
+			for i := range x {
+				xt, ok1 := x[i].(*Term)
+				yt, ok2 := y[i].(*Term)
+				if !ok1 || !ok2 || xt.Sort.K != KBV || xt.Sort.W != 8 || yt.Sort.W != 8 {
+					bytesOnly = false
+					break
+				}
+				xs[i], ys[i] = xt, yt
+				if _, _, ok := ex.idealByte(ex.resolveView(xt)); ok {
+					ideal = true
+				}
+				if _, _, ok := ex.idealByte(ex.resolveView(yt)); ok {
+					ideal = true
+				}
+			}
+			if bytesOnly && ideal {
+				return ex.eqBytes(xs, ys)
+			}
+		}
 		r := c.True()
 		for i := range x {
 			r = c.And(r, ex.eqValue(x[i], y[i]))
